@@ -1,4 +1,5 @@
 From Coq Require Import Extraction ExtrOcamlBasic.
-From SV Require Import Model.PeakHelpers Model.Peaks Model.Merging Model.PeakProps.
+From SV Require Import Model.PeakHelpers Model.Peaks Model.Merging Model.PeakProps Model.Splitting.
 Extraction Language OCaml.
-Extraction "model.ml" sma find_peaks replace_merged merge_peaks index_of_fraction Qred.
+Extraction "model.ml" sma find_peaks replace_merged merge_peaks index_of_fraction Qred
+  split_peak split_peak_local_minimum.
